@@ -35,7 +35,9 @@ def run(ctx, chk):
     chk.rule("K5", "stop/disable handlers perform the prescribed state change for every ring concerned (C11/T1)")
     chk.rule("K6", "every stop/disable is followed by the epoll update; a kick descriptor is unregistered before it is dropped (C11/T2)")
     chk.rule("K7", "the kick eventfd is consumed only on paths where the gate is true (C11/T4)")
-    c11.run_on(fb, Renamed(chk, {"T1": "K5", "T2": "K6", "T4": ("K7", lambda k: "consume-only-when-active" in k)}))
+    chk.rule("K8", "the worker's epoll set is changed by the control path's registration update only (C11/T3 writers)")
+    c11.run_on(fb, Renamed(chk, {"T1": "K5", "T2": "K6", "T4": ("K7", lambda k: "consume-only-when-active" in k),
+                                 "T3": ("K8", lambda k: "writer" in k)}))
     n = lambda r: len([i for i in chk.instances if i[0] == r])
     chk.floor("K1", n("K1"), 2)
     chk.floor("K2", n("K2"), 4)
